@@ -12,6 +12,21 @@ Z3_TIMEOUT_MS = int(os.environ.get("PYVC_Z3_TIMEOUT_MS", "20000"))
 CVC5_TIMEOUT_MS = int(os.environ.get("PYVC_CVC5_TIMEOUT_MS", "30000"))
 
 
+
+def guarded_check(solver, timeout_ms, *assumptions):
+    """solver.check() with a second line of defence behind z3's own timeout: a timer thread interrupts the context a few seconds
+    after the budget (z3's timer threads do not always survive a fork, and a query that ignores its budget would hang the check).
+    An interrupted query answers `unknown`, which every caller already treats as undecided."""
+    import threading
+    t = threading.Timer(timeout_ms / 1000 + 5, solver.ctx.interrupt)
+    t.daemon = True
+    t.start()
+    try:
+        return solver.check(*assumptions)
+    finally:
+        t.cancel()
+
+
 def check_sat(assertions, timeout_ms=None, want_model=True):
     """Return (status, model_or_reason, backend, ms); status in sat|unsat|unknown."""
     t0 = time.time()
@@ -19,7 +34,7 @@ def check_sat(assertions, timeout_ms=None, want_model=True):
     s.set("timeout", timeout_ms or Z3_TIMEOUT_MS)
     for a in assertions:
         s.add(a)
-    r = s.check()
+    r = guarded_check(s, timeout_ms or Z3_TIMEOUT_MS)
     ms = (time.time() - t0) * 1000
     if r == z3.unsat:
         return "unsat", None, "z3-" + z3.get_version_string(), ms
